@@ -489,6 +489,7 @@ var componentCases = []struct {
 	{"s2", "Rect", "Contains", []string{"ContainsInterval"}, "and"},
 	{"s2", "Rect", "Intersects", []string{"Intersects"}, "and"},
 	{"s2", "Rect", "Union", []string{"Union"}, "pair"},
+	{"s2", "Rect", "AddPoint", []string{"AddPoint"}, "pair"},
 }
 
 func runComponent(c *core.Ctx) []core.Obligation {
@@ -533,11 +534,16 @@ func (s *symEval) evalFuncNoInline(fn *types.Func, recv *sx, args []*sx) *sx {
 func componentShape(n *sx, kind string, ops []string) (bool, string) {
 	// strip a leading emptiness guard (s2.Rect.Union returns the other operand when one is empty): ite(cond, x, y)
 	for n.op == "ite" {
-		// follow the branch that builds the result from both components
+		// follow the branch that builds the result from both components; the branch that is left behind may only hand
+		// back one of the operands unchanged (the receiver for an invalid point, the other rectangle when one is empty)
+		var other *sx
 		if n.args[1].containsOp("call") && strings.Contains(n.args[1].String(), "sel:") && countCalls(n.args[1]) >= 2 {
-			n = n.args[1]
+			n, other = n.args[1], n.args[2]
 		} else {
-			n = n.args[2]
+			n, other = n.args[2], n.args[1]
+		}
+		if other.op != "ite" && (other.containsOp("call") || other.containsOp("lit")) {
+			return false, "one branch returns " + core.ShortDetail(other.String()) + ", which is neither an operand nor built from the two components with the 1-D operation"
 		}
 	}
 	var parts []*sx
@@ -629,6 +635,11 @@ func componentOf(n *sx) string {
 				n = n.args[0]
 				continue
 			}
+		}
+		// a unit conversion of one component (ll.Lat.Radians()) is still that component
+		if n.op == "call" && len(n.args) == 1 {
+			n = n.args[0]
+			continue
 		}
 		return ""
 	}
